@@ -99,6 +99,7 @@ type c05Obs struct {
 	// issued of them (highest serial)
 	Bundles [][]*c05Cert `json:"bundles"`
 	Panics  []string     `json:"panics,omitempty"` // panics of the code under test during the event (reported as err)
+	Starved []string     `json:"not_started,omitempty"` // submitted jobs that no worker took although workers were free
 
 	failovers int // certificates issued by the second issuer so far
 }
@@ -175,6 +176,9 @@ type c05World struct {
 	ocspOrd  []int          // names in the order the running OCSP pass asked for their locks
 	aliasOf  map[int]int // identity of a certificate -> identity of its ARI-due cache copy
 	bounded  bool
+	starvedSig  string   // the queue content for which "no worker" has been observed already
+	starved     []string // observations of jobs that did not start, during the latest event
+	starvedSeen bool
 	ocspPanicked bool
 	panics   []string // panics of the code under test during the latest event (observations, not harness failures)
 }
@@ -199,6 +203,9 @@ var c05DueChecked, c05DueMismatch int
 var c05ErrIssuerDown = errors.New("issuer double: injected failure")
 
 const c05Timeout = 40 * time.Second
+
+// a submitted job must have been taken by a worker within this bound when all workers sit at gates
+const c05StartBound = 1 * time.Second
 
 func (w *c05World) nameIndex(s string) int {
 	for i, n := range w.names {
@@ -474,13 +481,35 @@ func (w *c05World) setup(h *c05Hist) error {
 // settle waits until every goroutine of the job manager is blocked at a gate (or gone).
 func (w *c05World) settle() error {
 	deadline := time.Now().Add(c05Timeout)
+	var stableSince time.Time
+	curSig := ""
 	for {
 		snap := certmagic.VerifMaintainJobsSnapshot()
 		w.mu.Lock()
 		np := len(w.pending)
 		w.mu.Unlock()
 		if snap.ActiveWorkers == np && len(snap.Queue) == 0 {
+			w.starvedSig = ""
 			break
+		}
+		if snap.ActiveWorkers == np && len(snap.Queue) > 0 {
+			// every worker sits at a gate, yet submitted jobs wait in the queue and nobody will take them
+			// (far fewer workers than allowed): not a failure of the harness but an OBSERVATION — the job
+			// did not start; it is missing from the observed jobs, which the monitor judges
+			sig := strings.Join(snap.Queue, ",")
+			if sig == w.starvedSig {
+				break
+			}
+			if sig != curSig || stableSince.IsZero() {
+				curSig, stableSince = sig, time.Now()
+			} else if time.Since(stableSince) > c05StartBound {
+				w.starvedSig = sig
+				w.starved = append(w.starved, "queued job(s) got no worker within "+c05StartBound.String()+": "+sig)
+				w.starvedSeen = true
+				break
+			}
+		} else {
+			stableSince = time.Time{}
 		}
 		if time.Now().After(deadline) {
 			return fmt.Errorf("job manager did not settle: workers=%d queued=%d gated=%d", snap.ActiveWorkers, len(snap.Queue), np)
@@ -544,7 +573,7 @@ func (w *c05World) stepJob(n, k int) error {
 				break
 			}
 			snap := certmagic.VerifMaintainJobsSnapshot()
-			if snap.ActiveWorkers == np && len(snap.Queue) == 0 {
+			if snap.ActiveWorkers == np && (len(snap.Queue) == 0 || w.starvedSeen) {
 				// re-check: the job may have arrived between the two reads
 				w.mu.Lock()
 				_, back = w.pending[j.gid]
@@ -928,6 +957,7 @@ func (w *c05World) observe() (*c05Obs, error) {
 	o := &c05Obs{Err: w.lastErr, Rev: []int{}}
 	w.mu.Lock()
 	o.Panics, w.panics = w.panics, nil
+	o.Starved, w.starved = w.starved, nil
 	w.mu.Unlock()
 	if len(o.Panics) > 0 {
 		o.Err = true
@@ -1276,9 +1306,15 @@ func runC05History(h *c05Hist, choose c05Chooser) (res *c05Result, err error) {
 			continue
 		}
 		if err := w.do(*ev); err != nil {
+			if w.starvedSeen {
+				break // jobs that got no worker were observed (and reported); what follows cannot be attributed reliably
+			}
 			return nil, fmt.Errorf("event %d %+v: %v", len(res.hist.Events), *ev, err)
 		}
 		o, err := w.observe()
+		if err != nil && w.starvedSeen {
+			break
+		}
 		if err != nil {
 			return nil, fmt.Errorf("observing after event %d %+v: %v", len(res.hist.Events), *ev, err)
 		}
@@ -1369,6 +1405,9 @@ func c05Features(f map[string]bool, ev c05Event, b, a *c05Obs) {
 	}
 	if len(a.Panics) > 0 {
 		f["code_under_test_panicked"] = true
+	}
+	if len(a.Starved) > 0 {
+		f["queued_job_got_no_worker"] = true
 	}
 	if ev.Kind == "revoke" && len(a.Rev) > len(b.Rev) {
 		f["certificate_revoked"] = true
@@ -1830,6 +1869,23 @@ func c05Scenarios() []c05Scenario {
 					c05Cat(one(c05Ev("issuer", 0, fail)), one(c05Ev("manage", 0, 1)), pass(0), one(c05Ev("job", 0)), pass(1),
 						one(c05Ev("scan", 2)), one(c05Ev("job", 0)), one(c05Ev("act", 2)), one(c05Ev("issuer", 0, 0)), drain(0), pass(3), drain(0), pass(4))})
 			}
+		}
+	}
+	// name 0's issuers keep failing (its renewal job sits in its retry loop, holding a worker); then a pass finds
+	// name 1 due: its renewal job must get a worker and renew it while name 0 is still retrying
+	for _, idue := range []bool{false, true} {
+		for _, viaManage := range []bool{false, true} {
+			var h *c05Hist
+			var start []c05Event
+			if viaManage {
+				h = c05Build([]c05NameInit{{stored: 3}, {cached: 2, stored: 1}, {cached: 1, stored: 1}}, idue)
+				start = one(c05Ev("manage", 0, 1))
+			} else {
+				h = c05Build([]c05NameInit{{cached: 2, stored: 1}, {stored: 3}, {cached: 1, stored: 1}}, idue)
+				start = c05Cat(pass(0), one(c05Ev("manage", 1, 1)))
+			}
+			out = append(out, c05Scenario{"second-name-renewed-while-first-retries", h,
+				c05Cat(one(c05Ev("issuer", 0, 1)), start, c05Rep(c05Ev("job", 0), 3), pass(1), c05Rep(c05Ev("job", 1), 4), pass(2), one(c05Ev("job", 0)), pass(3))})
 		}
 	}
 	// ManageAsync twice for a name with nothing in storage: two unnamed obtain jobs, one Issue
